@@ -336,6 +336,33 @@ def run(db: DB, rep: Report) -> None:
                   "of the functional components bound in the incoming Einsum (source ok: %s, "
                   "filled: %s); the component condition would hold vacuously" % (src_ok, fill_ok))
 
+        # the fill is decided per component, from that component's bindings for this Einsum
+        fills = [x for x in walk_no_nested(fn) if isinstance(x, ast.Call) and isinstance(x.func, ast.Attribute)
+                 and x.func.attr in ("add", "append", "update") and isinstance(x.func.value, ast.Name) and
+                 x.func.value.id == local]
+        for fl in fills:
+            lp = next((p_ for p_ in paths.parents(fl, fn) if isinstance(p_, ast.For)), None)
+            if lp is None:
+                continue
+            lvars = {x.id for x in ast.walk(lp.target) if isinstance(x, ast.Name)}
+            for t, pol in paths.guards(fl, stop=lp):
+                for a, p_ in paths.conjuncts(t, pol):
+                    dep = bool(paths.load_names(a) & lvars)
+                    if not dep:
+                        # one step through locals of the iteration
+                        nms, _ = paths.backward_slice(fn, sorted(paths.load_names(a)), with_control=False)
+                        dep = bool(nms & lvars)
+                    const = isinstance(a, ast.Constant)
+                    if const and bool(a.value) == p_:
+                        continue        # always true: as good as no guard ("only if" allows over-splitting)
+                    rep.check("S6", dep, where(fl), f.short, "fill-guard:" + norm(a)[:50],
+                              "the component is counted under %s%s, a fact about that component" %
+                              ("" if p_ else "not ", norm(a)[:40]),
+                              "whether a functional component counts as used by the incoming Einsum is decided "
+                              "by '%s', which does not depend on the component: the set is empty (or holds "
+                              "every component) whatever is bound, so Einsums that share a component are "
+                              "fused - or never fused" % norm(a)[:60], decided=const)
+
     # ---- S7: the temporal prefix is "loop ranks ahead of the first spatial rank"
     rep.rule("S7", "incoming temporal prefix = loop ranks before the first spatial rank (all of them "
              "when there is no spatial rank)", 1)
@@ -528,6 +555,8 @@ def mutants(db: DB):
     dec = ("if config == self.curr_config and fused_ranks == self.fused_ranks and not "
            "self.components_used.intersection(\n                components_used):")
     return [
+        M("no component ever counts as used", "teaal/ir/fusion.py",
+          "            if component.get_bindings()[einsum]:", "            if False:", "S6"),
         M("drop config conjunct", rel, dec,
           "if fused_ranks == self.fused_ranks and not self.components_used.intersection(\n"
           "                components_used):", "S1"),
